@@ -196,6 +196,9 @@ type Harness struct {
 	seed    uint64
 	// CloneEvery: take clones at FS-mutation indices i with i % CloneEvery == phase.
 	CloneEvery int
+	// PostSyncEvery: take clones right after every k-th completed sync (0 = never).
+	PostSyncEvery int
+	postIdx       atomic.Int64
 	Depth      int
 	strictPrefix bool // C11 main family: no ingests generated; a mixed match is impossible
 	allowMixed   bool
@@ -500,6 +503,7 @@ type Options struct {
 	Prop       string
 	Knobs      dbcheck.Knobs
 	CloneEvery int
+	PostSyncEvery int // crash points right after completed syncs (see postfs.go)
 	Depth      int
 	VersionOracle bool // C22: recovered version must be one of the installed versions
 	AllowMixed bool // C10/C12: a batch-prefix ∪ later-ingests state is legal ("contains every durable unit")
@@ -512,7 +516,11 @@ type Options struct {
 func RunHistory(R *vcommon.Report, o Options, caseIdx int, rng *rand.Rand) *Harness {
 	h := &Harness{R: R, CloneEvery: o.CloneEvery, Depth: o.Depth, allowMixed: o.AllowMixed, versionOracle: o.VersionOracle, seed: vcommon.Seed()*1000003 + uint64(caseIdx)}
 	h.mem = vfs.NewCrashableMem()
-	fs := errorfs.Wrap(h.mem, h.injector())
+	h.PostSyncEvery = o.PostSyncEvery
+	var fs vfs.FS = errorfs.Wrap(h.mem, h.injector())
+	if h.PostSyncEvery > 0 {
+		fs = postFS{FS: fs, h: h}
+	}
 	restartsLeft := o.Restarts
 	run := dbcheck.NewRunFS(R, o.Prop, o.Knobs, caseIdx, rng, fs, func(r *dbcheck.Run) {
 		if o.Setup != nil {
@@ -589,13 +597,16 @@ func (h *Harness) crashRestart() {
 	clone := h.mem.CrashClone(cfg)
 	b = h.T.after(b)
 	// audit a copy (opening mutates the file system: WAL replay, new manifest)
-	v := h.checkClone(clone.CrashClone(vfs.CrashCloneCfg{UnsyncedDataPercent: 100, RNG: rand.New(rand.NewPCG(1, 2))}), b, fmt.Sprintf("restart@%d survive=%d%%", r.Step(), pct), h.Depth, int64(1<<42)+int64(r.Step()))
+	v := h.checkClone(clone.CrashClone(vfs.CrashCloneCfg{UnsyncedDataPercent: 100, RNG: rand.New(rand.NewPCG(1, 2))}), b, fmt.Sprintf("restart@%d survive=%d%%", r.Step(), pct), h.Depth, int64(1<<43)+int64(r.Step()))
 	if r.Failed() || !v.OK {
 		return
 	}
 	r.Log("CRASH+RESTART survive=%d%% recovered to unit %d (mixed=%v)", pct, v.Prefix, v.Mixed)
 	h.mem = clone
-	fs := errorfs.Wrap(h.mem, h.injector())
+	var fs vfs.FS = errorfs.Wrap(h.mem, h.injector())
+	if h.PostSyncEvery > 0 {
+		fs = postFS{FS: fs, h: h}
+	}
 	r.CrashRestart(fs, v.State)
 	if r.Failed() {
 		return
